@@ -60,6 +60,11 @@ def edit_campaign(ctx, reports=0.0, analyses=None, sim=True, graph=True, mc=True
             behs, _ = tlc.run_sim("SimEdit.tla", "SimEdit.cfg", ctx.work, num=num, depth=depth, seed=ctx.seed + 1)
             n = drv_edit.replay_sim(rec, behs, analyses=analyses)
             res.extra["sim_replay"] = {"behaviours": len(behs), "depth": depth, "calls": n}
+            # histories concentrated on the PMux and its inputs
+            mnum, mdepth = (150, 16) if q else (1500, 30)
+            mb, _ = tlc.run_sim("SimEdit.tla", "SimMux.cfg", ctx.work, num=mnum, depth=mdepth, seed=ctx.seed + 2)
+            n2 = drv_edit.replay_sim(rec, mb, analyses=analyses)
+            res.extra["mux_sim_replay"] = {"behaviours": len(mb), "depth": mdepth, "calls": n2}
     finally:
         rec.uninstall()
     traces = rec.dump()
